@@ -69,7 +69,9 @@ namespace
 	{
 	  assert (t.m_children.size () == 1);
 	  auto origin = std::make_shared <op_origin> (l);
-	  auto op = build_exec (t.child (0), l, rdv_ll, origin, bn, up);
+	  // A sub-expression context has a scope of its own.
+	  bindings scope {bn};
+	  auto op = build_exec (t.child (0), l, rdv_ll, origin, scope, up);
 	  return std::make_unique <pred_subx_any> (op, origin);
 	}
 
